@@ -223,6 +223,9 @@ func (m *mstate) runNode(id int) (string, string) {
 		cfg := n.configRun(m.runIdx)
 		fe := m.run.FailEnd
 		a, e := "", ""
+		if n.Wrap != "" && !m.cancelled {
+			m.trail += fmt.Sprintf("e%d;", n.ID) // the wrapper type's own Prep
+		}
 		for k := 1; k <= max(cfg.Retries, 1); k++ {
 			if k > 1 {
 				m.run.FailEnd = fe
@@ -237,6 +240,7 @@ func (m *mstate) runNode(id int) (string, string) {
 		}
 		if e == "" && n.Wrap != "" {
 			a = normAction(n.Wrap) // the wrapper type's own Post decides the action
+			m.trail += fmt.Sprintf("x%d;", n.ID)
 		}
 		return a, e
 	case "batch":
